@@ -239,6 +239,7 @@ func (ex *Exec) reschedule(voluntary bool) {
 			return
 		}
 		ex.preempt--
+		ex.res.Preempted = true
 		pick = opts[i]
 	} else {
 		i := 0
